@@ -1,27 +1,86 @@
 /-
   C18 — the client only uses syntax the server advertised and respects literal synchronisation.
-  Property theorems only (helper lemmas: Lemmas/ClientSyntax*.lean).
+  Property theorems only (helper lemmas: Lemmas/ClientSyntax{Caps,Scan,Run,Cmd}.lean).
 
-  Proved here, for ALL capability sets, enabled sets, strings and server scripts:
-    * `caps_has` — `CapSet.Has` is the RFC implication table (IMAP4rev2 folds in thirteen
-      extensions, LITERAL+ ⇒ LITERAL-, QRESYNC ⇒ CONDSTORE, UTF8=ONLY ⇒ UTF8=ACCEPT); `caps_has_table`
-      is the same statement on single advertised names, by evaluation of the 21 × 21 table.
-    * `nonsync_legal`, `append_nonsync_legal` — a string / the APPEND payload is sent as `{n+}` only if
-      LITERAL+ was advertised, or LITERAL- / IMAP4rev2 was advertised and n ≤ 4096.
-    * `quoted_legal` — a string sent in quotes contains no NUL, CR, LF, and 8-bit bytes only if
-      IMAP4rev2 was advertised or UTF8=ACCEPT enabled.
-    * `charset_rule` — SEARCH names CHARSET UTF-8 iff the server is not IMAP4rev2, UTF8=ACCEPT is not
-      enabled and a BODY / TEXT / HEADER string of the criteria is not ASCII.
+  Proved here, for ALL capability sets, enabled sets, argument strings and server scripts:
+    * `conforms` — END TO END: whatever the modelled client writes for any of its commands, with any
+      arguments, against a server that answers each synchronising literal with `+`, NO or BAD in any
+      pattern, is accepted by the independent scanner and rules of Spec/ClientSyntax (`checkCore`):
+      the bytes are one well-formed command (or stop at a refused literal), every `{n+}` is allowed
+      by the advertised set, every quoted string is free of NUL/CR/LF and 8-bit only where allowed,
+      the payload of every `{n}` follows the server's continuation request, and nothing follows a
+      tagged refusal. Hypotheses: the command is one of the modelled writers with a well-formed
+      MODSEQ entry type (`cmdRawOK`), and the encoder did not itself refuse an argument (an invalid
+      flag: the client then closes the connection; judged by the oracle at run time only).
+    * `payload_after_cont`, `nothing_after_refusal` — the synchronisation clauses of `conforms`
+      spelled out on the scanner's final state; `no_hang`, `no_stale_request` — the command always
+      gets the `+` that answers it, and leaves no continuation request behind.
+    * `nonsync_legal`, `append_nonsync_legal`, `quoted_legal` — the per-string decision of
+      `Encoder.String` / `commandEncoder.Literal` (all strings, all configurations).
+    * `caps_has`, `caps_has_table` — `CapSet.Has` is the RFC implication table.
+    * `charset_rule`, `charset_parts` — SEARCH names CHARSET UTF-8 iff the server is not IMAP4rev2,
+      UTF8=ACCEPT is not enabled and a BODY / TEXT / HEADER string is not ASCII.
     * `legacy_modseq_counterexample`, `legacy_leak_counterexample`, `legacy_stale_request_counterexample`
       — the three behaviours repaired in go-imap (MODSEQ entry name quoted unchecked; a literal's
       payload written after the command was refused; a continuation request queued for a completed
-      command swallowing the next command's `+`) are rejected by the oracle of Spec/ClientSyntax, on
-      concrete commands.
+      command swallowing the next command's `+`) are rejected by the oracle, on concrete commands.
+
+  Validated by the oracle at run time only (not proved): the two SEARCH CHARSET clauses of `check`
+  on the scanned tokens (the model-level rule is `charset_rule`); commands aborted by the encoder;
+  mailbox names that are not valid UTF-8 (outside the model).
 -/
-import GoImap.Lemmas.ClientSyntaxCaps
+import GoImap.Lemmas.ClientSyntaxCmd
 namespace GoImap.C18
 open GoImap.Wire GoImap.ClientSyntax GoImap.ClientSyntaxLemmas
 open GoImap.ClientSyntaxSpec (Server nonSyncLegal utf8Quoted available implies)
+
+/-! ### end to end -/
+
+/-- everything the modelled client writes, and when it writes it, is legal for the server -/
+theorem conforms (caps enabled : List Cap) (tagNo : Nat) (c : Cmd) (script : List Act) (o : Outcome)
+    (hc : cmdRawOK c = true) (h : exec caps enabled tagNo c script = some o) (hres : o.result ≠ .err) :
+    ClientSyntaxSpec.checkCore ⟨caps, enabled⟩ (contsOf o.acts) (refusalsOf o.acts) false o.wire = .ok :=
+  (exec_conforms caps enabled tagNo c script o hc h hres).1
+
+/-- the hypotheses are satisfiable and the statement is about real traffic: LOGIN with two
+    5000-byte arguments under LITERAL-, first literal granted, second refused -/
+example :
+    (exec [.imap4rev1, .literalMinus] [] 1 (.login (List.replicate 5000 97) (List.replicate 5000 98)) [.cont, .no]).map
+      (fun o => (o.acts, o.result, o.wire.length)) = some ([(17, .cont), (5026, .no)], .no, 5026) := by
+  decide +kernel
+
+/-- the payload of a synchronising literal is on the wire only after the server's continuation
+    request: the scanner, which fails with `payloadBeforeCont` / `syncUnanswered` when a byte follows
+    a `{n}` header the server had not answered with `+` at exactly that offset, never fails -/
+theorem payload_after_cont (caps enabled : List Cap) (tagNo : Nat) (c : Cmd) (script : List Act) (o : Outcome)
+    (hc : cmdRawOK c = true) (h : exec caps enabled tagNo c script = some o) (hres : o.result ≠ .err) :
+    ∀ f, (ClientSyntaxSpec.scan (contsOf o.acts) (refusalsOf o.acts) o.wire).mode ≠ .failed f := by
+  intro f hf
+  have := conforms caps enabled tagNo c script o hc h hres
+  unfold ClientSyntaxSpec.checkCore ClientSyntaxSpec.verdictCore at this
+  rw [hf] at this
+  simp at this
+
+/-- … and not at all after a tagged refusal: for the scanner the bytes end exactly at the refused
+    header (one more byte would be `bytesAfterRefusal`) -/
+theorem nothing_after_refusal (caps enabled : List Cap) (tagNo : Nat) (c : Cmd) (script : List Act) (o : Outcome)
+    (hc : cmdRawOK c = true) (h : exec caps enabled tagNo c script = some o) (hno : o.result = .no ∨ o.result = .bad) :
+    (ClientSyntaxSpec.scan (contsOf o.acts) (refusalsOf o.acts) o.wire).mode = .refused :=
+  exec_refused_mode caps enabled tagNo c script o hc h hno
+
+/-- the command always receives the `+` that answers its literal … -/
+theorem no_hang (caps enabled : List Cap) (tagNo : Nat) (c : Cmd) (script : List Act) (o : Outcome)
+    (hc : cmdRawOK c = true) (h : exec caps enabled tagNo c script = some o) (hres : o.result ≠ .err) :
+    o.result ≠ .hang :=
+  (exec_conforms caps enabled tagNo c script o hc h hres).2
+
+/-- … and leaves no continuation request in `Client.contReqs` for a later command to trip over -/
+theorem no_stale_request (caps enabled : List Cap) (tagNo : Nat) (c : Cmd) (script : List Act) (o : Outcome)
+    (q : List Nat) (hc : cmdRawOK c = true) (h : execFrom [] caps enabled tagNo c script = some (o, q))
+    (hres : o.result ≠ .err) : q = [] :=
+  execFrom_queue_nil caps enabled tagNo c script o q hc h hres
+
+/-! ### the decisions -/
 
 /-- `CapSet.Has` answers exactly what the RFCs say an advertised set makes available -/
 theorem caps_has (set : List Cap) (c : Cap) : has set c = available set c :=
